@@ -50,7 +50,15 @@ std::unique_ptr<cctz::ZoneInfoSource> gate_factory(
   if (++S->inflight > S->max_inflight) S->max_inflight = S->inflight;
   if (S->inflight > 1) S->problems.push_back("factory invoked concurrently with another invocation (for '" + name + "')");
   if (tl_loading != name) S->problems.push_back("factory for '" + name + "' invoked on a thread that is not inside load_time_zone('" + name + "') (thread is loading '" + tl_loading + "')");
-  if (name == "UTC" || name == "UTC0" || name.compare(0, 9, "Fixed/UTC") == 0) S->problems.push_back("factory invoked for internally resolved name '" + name + "'");
+  {
+    // internally resolved names: UTC, UTC0 and well-formed fixed-offset names of at most 24 h
+    bool internal = name == "UTC" || name == "UTC0";
+    if (name.size() == 18 && name.compare(0, 9, "Fixed/UTC") == 0 && (name[9] == '+' || name[9] == '-') && name[12] == ':' && name[15] == ':') {
+      bool digits = true; for (int i : {10, 11, 13, 14, 16, 17}) digits = digits && isdigit((unsigned char)name[i]);
+      if (digits) { int tot = ((name[10] - '0') * 10 + (name[11] - '0')) * 3600 + ((name[13] - '0') * 10 + (name[14] - '0')) * 60 + (name[16] - '0') * 10 + (name[17] - '0'); internal = tot <= 86400; }
+    }
+    if (internal) S->problems.push_back("factory invoked for internally resolved name '" + name + "'");
+  }
   const int idx = tl_index;
   if (idx >= 0 && S->park_enabled) {
     S->parked[idx] = true;
@@ -224,9 +232,12 @@ static void gen_partitions(int k, std::vector<int>& lab, int next, std::vector<s
 }
 static std::string name_for(int label, int kindsel) {
   // kind of each name class: mostly valid data, sometimes missing / garbage / fixed / UTC
-  static const char* kinds[] = {"valid", "valid", "missing", "garbage", "fixed", "utc"};
-  const char* kd = kinds[(kindsel + label * 5) % 6];
+  static const char* kinds[] = {"valid", "valid", "missing", "garbage", "fixed", "utc", "lookalike", "fixed24"};
+  const char* kd = kinds[(kindsel + label * 5) % 8];
   if (!strcmp(kd, "fixed")) { char b[32]; snprintf(b, sizeof b, "Fixed/UTC+%02d:00:00", 1 + label); return b; }
+  if (!strcmp(kd, "fixed24")) return label % 2 ? "Fixed/UTC-24:00:00" : "Fixed/UTC+24:00:00";  // the limits of the fixed-offset range
+  // names that look like fixed-offset names but are not (out of range / malformed): they DO go to the data source
+  if (!strcmp(kd, "lookalike")) { static const char* la[] = {"Fixed/UTC+24:00:01", "Fixed/UTC-1:00", "Fixed/UTC+99:99:99", "Fixed/UTC-24:00:01"}; return la[label % 4]; }
   if (!strcmp(kd, "utc")) return label % 2 ? "UTC0" : "UTC";
   return std::string("c20/") + kd + "/" + std::to_string(label);
 }
@@ -248,7 +259,7 @@ static bool replay(const vf::Case& c, std::string* why) {
 static void run(const vf::Args& a, vf::Evidence& ev, vf::Reporter& rep) {
   ev.rule = "exhaustive: for k = 1..3 (quick) / 1..4 (thorough) loader threads, every order of {start thread i, release thread j} "
             "(a thread can only be released after it was started; each is parked inside the factory) x every partition of the "
-            "threads into same-name groups x name kinds (valid data, missing, garbage, fixed-offset, UTC), each schedule in a "
+            "threads into same-name groups x name kinds (valid data, missing, garbage, fixed-offset incl. +-24h, UTC, fixed-offset look-alikes that are not fixed names), each schedule in a "
             "forked child, followed by repeat loads on the controlling thread and on fresh threads; quick additionally samples "
             "k = 4 schedules with rapidcheck. Observed in the factory: calling thread is inside load_time_zone of that name, "
             "invocations per name, in-flight count, calls for internally resolved names. Non-trivial = >= 2 threads had started a "
@@ -262,7 +273,7 @@ static void run(const vf::Args& a, vf::Evidence& ev, vf::Reporter& rep) {
     gen_orders(k, cur, st, &orders);
     gen_partitions(k, lab, 0, &parts);
     for (auto& p : parts)
-      for (int kindsel = 0; kindsel < (k <= 2 ? 6 : 2); ++kindsel)
+      for (int kindsel = 0; kindsel < (k <= 2 ? 8 : 3); ++kindsel)
         for (auto& o : orders) {
           Sched s;
           for (int i = 0; i < k; ++i) s.names.push_back(name_for(p[i], kindsel));
@@ -311,7 +322,7 @@ static void run(const vf::Args& a, vf::Evidence& ev, vf::Reporter& rep) {
     vf::rc_run("C20.k4_sample", a.stream_seed(1), (int)a.budget(60, 200), rep, [&]() {
       Sched s;
       const auto& p = parts[*vf::index(parts.size())];
-      const int kindsel = *vf::range<int>(0, 5);
+      const int kindsel = *vf::range<int>(0, 7);
       for (int i = 0; i < 4; ++i) s.names.push_back(name_for(p[i], kindsel));
       s.actions = orders[*vf::index(orders.size())];
       int nt = *vf::range<int>(0, 6);
